@@ -521,6 +521,10 @@ sraRgnCreateRect(int x1, int y1, int x2, int y2) {
   sraSpanList *vlist, *hlist;
   sraSpan *vspan, *hspan;
 
+  /* - An empty or inverted rectangle covers no pixels: the empty region */
+  if (x1 >= x2 || y1 >= y2)
+    return sraRgnCreate();
+
   /* - Build the horizontal portion of the span */
   hlist = sraSpanListCreate();
   hspan = sraSpanCreate(x1, x2, NULL);
